@@ -99,7 +99,11 @@ class Check:
 
     def floor(self, rule, measured, floor, what):
         """instance-count floor: fewer instances than confirmed by hand is analysis-broken"""
-        self.floors[rule] = {"measured": measured, "floor": floor, "what": what}
+        # the number written in the rule is the count confirmed by hand on the reference tree; a refactoring may merge or split
+        # sites, so the run is called blind only when fewer than 60% of them (at least one) are found
+        confirmed = floor
+        floor = max(1, (floor * 6) // 10)
+        self.floors[rule] = {"measured": measured, "floor": floor, "confirmed_on_reference_tree": confirmed, "what": what}
         if getattr(self, "_floors_off", 0):
             return
         if measured < floor:
